@@ -241,3 +241,34 @@ def constructors_numeric(ctx):
                 break
         t = Transformation.from_points(*[(g.Point(*a), g.Point(*b)) for a, b in zip(A, B)])
         ctx.ensure("from_points-3d-maps-the-frame", all((t * g.Point(*a)) == g.Point(*b) for a, b in zip(A, B)), witness=dict(source=A.tolist(), target=B.tolist()))
+    # from_points_and_conics: three points on a conic onto three points on another conic, the conic onto the conic
+    from geometer.curve import Circle, Ellipse, Conic
+    import math
+
+    def on_circle(c, r, t):
+        return g.Point(c[0] + r * math.cos(t), c[1] + r * math.sin(t))
+
+    def on_ellipse(c, a, b, t):
+        return g.Point(c[0] + a * math.cos(t), c[1] + b * math.sin(t))
+
+    angle_sets = [(0.1, 1.3, 2.9), (0.4, 2.0, 4.0), (5.5, 0.7, 3.1), (1.0, 3.0, 5.0), (2.9, 1.3, 0.1), (4.4, 0.2, 2.2)]
+    for src in angle_sets:
+        for dst in angle_sets[:3]:
+            c1, c2 = Circle(g.Point(0, 0), 1), Ellipse(g.Point(2, -1), 3, 1.5)
+            P1 = [on_circle((0, 0), 1, t) for t in src]
+            P2 = [on_ellipse((2, -1), 3, 1.5, t) for t in dst]
+            w = dict(source_angles=src, target_angles=dst)
+            try:
+                t = Transformation.from_points_and_conics(P1, P2, c1, c2)
+                img = t * c1
+                ok = all((t * a) == b for a, b in zip(P1, P2)) and img == c2 and all(_res_on_conic(c2, t * on_circle((0, 0), 1, u)) for u in (0.9, 2.5, 4.9))
+            except Exception as e:
+                ok = False
+                w["exception"] = "%s: %s" % (type(e).__name__, str(e)[:100])
+            ctx.ensure("from_points_and_conics:maps-the-points-and-the-conic", ok, witness=w)
+
+
+def _res_on_conic(c, x, rel=1e-7):
+    A = np.asarray(c.array, dtype=complex)
+    v = np.asarray(x.array, dtype=complex)
+    return abs(v @ A @ v) <= rel * np.abs(A).max() * np.abs(v).max() ** 2
